@@ -157,6 +157,21 @@ func rulesC01(e *Engine, r *Report) {
 		e.Guarded(r, "R01.3", construct, s.Fn, func(in ssa.Instruction) bool { return in == target.(ssa.Instruction) }, cls,
 			func(l LabelSet) bool { return l.HasAll("hashEq", "md5ok") },
 			"FileMD5("+base+".full)#0 == "+h+" and its err == nil")
+		// R01.10: what was hashed is what is renamed - the per-path lock is held
+		// from before the hash to the rename, without a release in between
+		lock := "call(stage.(*Stage).getPathLock)(p0, " + base + ")"
+		lcls := labeler(
+			I("call(sync.(*RWMutex).Lock)("+lock+")", "locked"),
+			IK("call(sync.(*RWMutex).Unlock)("+lock+")", "locked"),
+			IK("call(sync.(*RWMutex).Unlock)("+lock+")", "hashed"),
+			I(md5, "hashed"),
+		)
+		r.Rule("R01.10", "the file that was hashed is the file that is renamed: the per-path lock is taken before FileMD5(<base>.full) and not released until <base>.full has become <base>.wait (a completed newer version cannot be swapped in between)")
+		e.Guarded(r, "R01.10", e.ShortName(s.Fn)+": rename under the lock held since the hash", s.Fn, only(target.(ssa.Instruction)), lcls,
+			func(l LabelSet) bool { return l.HasAll("locked", "hashed") }, "getPathLock("+base+") held, no Unlock since FileMD5")
+		nh := e.Guarded(r, "R01.10", e.ShortName(s.Fn)+": FileMD5 under the path lock", s.Fn, e.instrMatch(md5), lcls,
+			func(l LabelSet) bool { return l.Has("locked") }, "getPathLock("+base+") held")
+		r.Min("R01.10", "FileMD5 calls in the validator", nh, 1)
 	}
 	r.Min("R01.3", "renames minting .wait", nWait, 1)
 
